@@ -1,5 +1,5 @@
 ---- MODULE MC_q_uniform ----
 EXTENDS MCOFWire
-TheCases == Uniform(TopKindsOF) \cup Empty(TopKindsOF) \cup Outputs
+TheCases == Uniform(TopKindsOF) \cup Empty(TopKindsOF) \cup Outputs(0)
 TheAround == AroundBoth
 ====
